@@ -253,6 +253,7 @@ pub struct Stats {
 	pub hermite: u64,
 	pub ended: u64,
 	pub seeks: u64,
+	pub outside_seeks: u64,
 	pub loop_changes: u64,
 	pub pair_checks: u64,
 }
@@ -413,7 +414,38 @@ fn run_commands(ctx: &mut Ctx, stream: &str, idx: u64, r: &mut Rng, stats: &mut 
 			{
 				// seek inside the region that keeps playing (inside the loop if one is set, so the landing index is unambiguous)
 				let (lo, hi) = lp.unwrap_or((0, len));
-				if hi - lo > 16 {
+				// ... or, while playback is inside a loop, to a frame outside it: the target is carried into the loop a whole
+				// number of loop lengths at a time (backwards targets upwards, forward targets downwards), so a target that
+				// is an exact multiple of the loop length away from the loop start lands on the loop start itself
+				let outside = match (lp, prev) {
+					(Some((a, b)), Some(p)) if b - a > 24 && p >= a && p + 8 < b && r.chance(0.45) => {
+						let l = b - a;
+						let backwards = if a == 0 { false } else if b >= len { true } else { r.chance(0.5) };
+						let target = if backwards {
+							if a >= l && r.chance(0.5) { a - l * r.usize_in(1, (a / l).min(3)) } else { r.below(a as u64) as usize }
+						} else if r.chance(0.5) {
+							b + l * r.usize_in(0, 2)
+						} else {
+							r.usize_in(b, len + l)
+						};
+						let mut folded = target;
+						while folded >= b {
+							folded -= l;
+						}
+						while folded < a {
+							folded += l;
+						}
+						if folded + 9 <= b && (folded as i64 - p as i64).abs() >= 16 && (backwards || a > 0 || b < len) { Some((target, folded)) } else { None }
+					}
+					_ => None,
+				};
+				if let Some((target, folded)) = outside {
+					handle.seek_to(target as f64 / sr as f64);
+					log.push(format!("cb{} seek_to frame {} outside the loop {:?} while frame {} is playing (lands on frame {})", cb, target, lp, prev.unwrap(), folded));
+					pending_seek = Some((folded, 0, false));
+					stats.seeks += 1;
+					stats.outside_seeks += 1;
+				} else if hi - lo > 16 {
 					let mut target = r.usize_in(lo, hi - 9);
 					if (target as i64 - prev.unwrap_or(0) as i64).abs() < 16 {
 						target = if target + 32 < hi - 9 { target + 32 } else { lo };
@@ -441,7 +473,7 @@ fn run_commands(ctx: &mut Ctx, stream: &str, idx: u64, r: &mut Rng, stats: &mut 
 			let reported = handle.position();
 			sound.process(&mut out[..chunk], dt, &info);
 			stats.frames += chunk as u64;
-			if lp.is_some() && since_loop_change > 8 && pending_seek.is_none() && handle.state() == PlaybackState::Stopped {
+			if lp.is_some() && since_loop_change > 8 && handle.state() == PlaybackState::Stopped {
 				return Err(format!("cb {}: the sound is Stopped although a loop region {:?} has been in force for {} frames [{}]", cb, lp, since_loop_change, log.join("; ")));
 			}
 			for (i, o) in out[..chunk].iter().enumerate() {
@@ -641,6 +673,7 @@ pub fn run(ctx: &mut Ctx) {
 	ctx.count("frames_hermite_checked", stats.hermite);
 	ctx.count("cases_reaching_stopped", stats.ended);
 	ctx.count("seeks_checked", stats.seeks);
+	ctx.count("seeks_to_frames_outside_the_loop", stats.outside_seeks);
 	ctx.count("loop_region_changes", stats.loop_changes);
 	ctx.count("successor_pairs_checked", stats.pair_checks);
 }
